@@ -121,7 +121,54 @@ def drive(rec, s, fac):
                     back.rotate()
 
 
+def rotate_beside_a_very_deep_subtree(rec):
+    """rotate is a constant-time re-linking: the size or depth of the rest of the tree (a search tree
+    filled with sorted keys is one long spine) has nothing to do with it.  Built and checked with
+    loops only; the monitors (which walk the tree recursively) are bypassed."""
+    from mathy_core.tree import BinaryTreeNode as B
+
+    f = getattr(B.rotate, "__vmon_original__", B.rotate)
+    for depth in (2000, 7000, 50000):
+        for deep_side in ("L", "R"):
+            def link(l, r):          # the three public link attributes, set directly (no method of the class runs)
+                n = B()
+                n.left, n.right = l, r
+                for ch in (l, r):
+                    if ch is not None:
+                        ch.parent = n
+                return n
+
+            spine = B()
+            for _ in range(depth):
+                spine = link(spine, None) if deep_side == "L" else link(None, spine)
+            a, b, c = B(), B(), B()
+            parent = link(a, b)
+            small = link(spine, parent) if deep_side == "L" else link(parent, spine)   # the node's uncle is the spine
+            root = link(small, c)
+            for node in (a, parent):
+                gp, par = node.parent.parent, node.parent
+                was_left = par.left is node
+                inner = node.right if was_left else node.left
+                rec.ev()
+                rec.arm("rotate:beside-a-very-deep-subtree")
+                try:
+                    f(node)
+                    err = None
+                except BaseException as e:
+                    err = e
+                ok = (err is None and node.parent is gp and (gp.left is node or gp.right is node) and par.parent is node
+                      and (node.right is par if was_left else node.left is par) and ((par.left is inner) if was_left else (par.right is inner))
+                      and (inner is None or inner.parent is par) and root.parent is None)
+                if not ok:
+                    rec.violation("C15", "rotate", "rotate breaks the in-order sequence or the link structure",
+                                  {"deep": True, "summary": f"rotating a node two levels below the root of a tree whose other subtree is a spine {depth} deep: "
+                                   + (f"raised {type(err).__name__}" if err is not None else "links are inconsistent afterwards")})
+                    break
+
+
 def run(rec, cfg):
+    if cfg.shard == 6 % cfg.nshards:
+        rotate_beside_a_very_deep_subtree(rec)
     MT.attach_rotate("C15")
     MT.attach_queries("C15")   # after a rotation the public look-ups (children, sibling, root, side) agree with the new links
     fac = factories()
@@ -255,6 +302,9 @@ def run(rec, cfg):
 
 
 def replay(rec, cfg, w):
+    if w.get("deep"):
+        rotate_beside_a_very_deep_subtree(rec)
+        return
     MT.attach_rotate("C15")
     s = W9.parse_shape(w["shape"])
     drive(rec, s, factories())
